@@ -31,6 +31,11 @@ func valueFieldByName(v reflect.Value, fields []string) (out reflect.Value, ok b
 		return v, v.IsValid()
 	}
 
+	// only a structure has fields, the path goes further than it can
+	if v.Kind() != reflect.Struct {
+		return reflect.Value{}, false
+	}
+
 	out = v.FieldByName(fields[0])
 
 	// if pointer we dereference
